@@ -18,7 +18,7 @@ from litex.gen.sim.core import Evaluator
 from litex.soc.integration import soc
 from litex.soc.interconnect import wishbone
 
-from checks.c13_common import guarded, digest, hx, MachineryError
+from checks.c13_common import guarded, digest, hx, MachineryError, reset_migen_tracer
 
 # ----------------------------------------------------------------------------------------------------------------------
 # menus
@@ -30,16 +30,6 @@ MENUS = {
     64: dict(ORIG=[None, 0x0, 0x1000, 0x8000_0000, 0x1_0000_0000, 1 << 63, (1 << 64) - 0x1000],
              SIZE=[0x8, 0x1000, 0x1800, 0x8000_0000, 1 << 32, 1 << 63, 1 << 64],
              IO=[(1 << 63, 1 << 63), (0x4000, 0x3000), (0x1000, 0x1000), (0x1_0000_0000, 0x1800)]),
-}
-# the reduced menu used for the deepest level of each tier (a sub-menu of the above, chosen to keep every mechanism:
-# automatic + fixed origins, non power-of-two sizes, a huge region, region ending at 2**32, pow2 and non-pow2 IO regions)
-SMALL = {
-    32: dict(ORIG=[None, 0x0, 0x1800, 0x8000_0000, 0xFFFF_F000],
-             SIZE=[0x4, 0x1000, 0x1800, 0x8000_0000],
-             IO=[(0x8000_0000, 0x8000_0000), (0x4000, 0x3000)]),
-    64: dict(ORIG=[None, 0x0, 0x1000, 1 << 63, (1 << 64) - 0x1000],
-             SIZE=[0x8, 0x1000, 0x1800, 1 << 63],
-             IO=[(1 << 63, 1 << 63), (0x4000, 0x3000)]),
 }
 REGION_KINDS = ("slave", "region", "linker", "nodecode")
 
@@ -130,12 +120,14 @@ class BusModel:
         self.IF = wishbone.Interface(data_width=dw, address_width=aw, addressing="word")
         self.E = DecoderEval(self.adr_width)
         self.decoders = {}
-        M = dict((SMALL if menu == "small" else MENUS)[aw])
+        M = dict(MENUS[aw])
         if self.B > M["SIZE"][0]:
             M["SIZE"] = [self.B] + M["SIZE"][1:]        # regions are at least one bus word wide (sub-word: part b)
         self.M = M
         base = [("slave", o, s, c) for o in M["ORIG"] for s in M["SIZE"] for c in (True, False)]
         base += [("io", o, s) for o, s in M["IO"]]
+        if menu == "mid":
+            base += [("linker", o, s, True) for o in M["ORIG"] for s in M["SIZE"]]
         if menu == "full":
             base += [(k, o, s, c) for k in ("region", "linker") for o in M["ORIG"] for s in M["SIZE"] for c in (True, False)]
             base += [("nodecode", o, M["SIZE"][2], True) for o in (0x0, M["ORIG"][4])]
@@ -396,6 +388,7 @@ class RealBusModel(BusModel):
         return wishbone.Interface(data_width=self.dw, address_width=self.aw, addressing="word")
 
     def fresh(self):
+        reset_migen_tracer()
         h = soc.SoCBusHandler(standard="wishbone", data_width=self.dw, address_width=self.aw, interconnect=self.interconnect)
         return types.SimpleNamespace(h=h, last=None)
 
